@@ -106,6 +106,7 @@ func routeReturns() []returnStmt {
 		{"json-composite", "return c.JSON(200, Out{N: 1})", func(r *Route) { r.Return = "Out" }},
 		{"json-pretty", "var outP []Out\n\treturn c.JSONPretty(200, outP, \" \")", func(r *Route) { r.Return = "[]Out" }},
 		{"blob", "var data []byte\n\treturn c.Blob(200, \"application/pdf\", data)", func(r *Route) { r.Return = "[]byte"; r.Blob = true }},
+		{"blob-then-error", "if c != nil {\n\t\tvar data []byte\n\t\treturn c.Blob(200, \"application/pdf\", data)\n\t}\n\treturn fmt.Errorf(\"nothing to send\")", func(r *Route) { r.Return = "[]byte"; r.Blob = true }},
 		{"json-map", "outM := map[string]int{}\n\treturn c.JSON(200, outM)", func(r *Route) { r.Return = "map[string]int" }},
 		{"json-basic", "var code uint\n\treturn c.JSON(200, code)", func(r *Route) { r.Return = "uint" }},
 		{"json-slice-of-ids", "var outIds []IdDossier\n\treturn c.JSON(200, outIds)", func(r *Route) { r.Return = "[]IdDossier" }},
@@ -140,6 +141,7 @@ func Routes(c explore.Chooser) *prog.Program {
 	layout := s.Pick("layout", "r0-first-of-3", "r0-last-of-3", "r0-only", "r0-middle-with-noise")
 	prefix := s.Pick("prefix", "", "/api", "/zzz", "/api/it", "/inner", "/api/inner", "/api/pkg/sub", "/inner/e")
 	regSite := s.Pick("registration", "in-func", "in-method", "two-funcs", "nested-block")
+	sameLine := s.Pick("same-line-literals", "no", "yes")
 	shadow := s.Pick("shadowed-const", "no", "local-shadows-package-const", "two-locals-same-name")
 
 	// de-duplicate statements using the same variables (same statement chosen twice)
@@ -277,17 +279,30 @@ func Routes(c explore.Chooser) *prog.Program {
 
 	innerSrc := "package inner\n\nimport (\n\t\"fmt\"\n\n\t\"" + echoPath + "\"\n)\n\nconst Url = \"/inner/\"\n\ntype Controller struct{}\n\nfunc (Controller) HandleExt(c echo.Context) error {\n\tvar in []int64\n\tt, v := c.QueryParam(\"query1\"), c.QueryParam(\"query2\")\n\terr := c.Bind(&in)\n\t_ = fmt.Errorf(\"%s%s%s\", t, v, err)\n\tvar out map[string][]int\n\treturn c.JSON(200, out)\n}\n\nfunc TopLevel(c echo.Context) error {\n\treturn nil\n}\n\nfunc QueryParamInt[T ~int64](echo.Context, string) (T, error) { return 0, nil }\n"
 	hdr := "package main\n\nimport (\n\t\"" + echoPath + "\"\n\t\"" + innerPath + "\"\n)\n\n"
-	bimports := "import \"" + echoPath + "\"\n\n"
-	if strings.Contains(extraFile.String(), "inner.") {
-		bimports = "import (\n\t\"" + echoPath + "\"\n\t\"" + innerPath + "\"\n)\n\n"
+	if strings.Contains(a.String(), "fmt.") || strings.Contains(handlerExpr, "fmt.") {
+		hdr = "package main\n\nimport (\n\t\"fmt\"\n\n\t\"" + echoPath + "\"\n\t\"" + innerPath + "\"\n)\n\n"
 	}
+	rawTail := ""
+	if sameLine == "yes" {
+		// two function literals starting on one source line (legal, not gofmt'ed)
+		rawTail = "func routesRaw(e *echo.Echo) { e.GET(\"/api/raw/a\", func(c echo.Context) error { return nil }); e.DELETE(\"/api/raw/b\", func(c echo.Context) error { return c.JSON(200, 1) }) }\n"
+		routes = append(routes, Route{Verb: "GET", URL: "/api/raw/a", Pkg: "main"}, Route{Verb: "DELETE", URL: "/api/raw/b", Return: "int", Pkg: "main"})
+	}
+	bimps := []string{"\t\"" + echoPath + "\""}
+	if strings.Contains(extraFile.String(), "fmt.") {
+		bimps = append([]string{"\t\"fmt\""}, bimps...)
+	}
+	if strings.Contains(extraFile.String(), "inner.") {
+		bimps = append(bimps, "\t\""+innerPath+"\"")
+	}
+	bimports := "import (\n" + strings.Join(bimps, "\n") + "\n)\n\n"
 	bsrc := "package main\n\n" + bimports + "var _ echo.Context\n\n" + extraFile.String() + "\nfunc main() {}\n"
 
 	p := &prog.Program{Family: "F-routes", Analysed: []string{"routes.go"}, Features: s.Feats}
 	p.Pkgs = []*prog.Pkg{
 		{Path: echoPath, Name: "echo", Files: []prog.File{{Name: "echo.go", Src: echoStub}}},
 		{Path: innerPath, Name: "inner", Files: []prog.File{{Name: "inner.go", Src: innerSrc}}},
-		{Path: base, Name: "main", Files: []prog.File{{Name: "routes.go", Src: hdr + a.String()}, {Name: "other.go", Src: bsrc}}},
+		{Path: base, Name: "main", Files: []prog.File{{Name: "routes.go", Src: hdr + a.String(), RawTail: rawTail}, {Name: "other.go", Src: bsrc}}},
 	}
 	// prefix filter on the expected table
 	var want []Route
